@@ -351,7 +351,16 @@ def run(ctx, rep) -> None:
         if (f.qualname, n.lineno) in seen_w:
             continue
         seen_w.add((f.qualname, n.lineno))
-        ok = f.module.name == "stabilize.handlers.jump_to_stage.handler" and norm(n.targets[0].value) == "target_stage.context"
+        # written onto the jump TARGET: directly on its context, or into the dict that the target mutation applies
+        tgt_ = norm(n.targets[0].value)
+        applied = False
+        if tgt_ != "target_stage.context":
+            for g_ in ast.walk(f.node):
+                if isinstance(g_, ast.FunctionDef) and g_.name == "mutate_target":
+                    for p_, d_ in zip(g_.args.args[len(g_.args.args) - len(g_.args.defaults):], g_.args.defaults):
+                        if norm(d_) == tgt_ and any(isinstance(c_, ast.Call) and norm(c_.func).endswith(".context.update") and norm(c_.args[0]) == p_.arg for c_ in ast.walk(g_)):
+                            applied = True
+        ok = f.module.name == "stabilize.handlers.jump_to_stage.handler" and (tgt_ == "target_stage.context" or applied)
         rep.check(ok, "C03.R6", f"_jump_bypass written in {f.qualname}", "only the jump handler sets it, on the explicit jump target", f.file, n.lineno, disc=f"bypass-writer:{f.qualname}")
     rep.floor("_jump_bypass writers", len(seen_w), 1)
     seen_c = set()
